@@ -9,9 +9,9 @@
      src/oscore/oscore_context.c  oscore_add_recipient (memset 0, initial_state = 1),
                                   oscore_derive_ctx (replay_window 0 -> default)
 
-   The code as found violated the property in seven places.  Each repair is a flag of
+   The code as found violated the property in eight places.  Each repair is a flag of
    [rp_variant]: [rp_orig] (all flags off) is the code as found at /repo 74963ff, [rp_fixed]
-   (all on) is the code after the seven "fix:" commits.  The tie (harness/h_replay.c) compares
+   (all on) is the code after the eight "fix:" commits.  The tie (harness/h_replay.c) compares
    the C with [rp_fixed]; the [_refuted] theorems are about [rp_orig] and the variants with a
    single repair missing.
 
@@ -37,11 +37,13 @@ Record rp_variant := {
   rp_v_rbflag : bool;      (* rollback restores window and last_seq together *)
   rp_v_arm : bool;         (* without B.1.2 the first authenticated request arms the window *)
   rp_v_resp_rb : bool;     (* a response that fails decryption gets the window rolled back, too *)
-  rp_v_resp_nowrite : bool (* the response branch does not write last_seq before decryption (and
+  rp_v_resp_nowrite : bool; (* the response branch does not write last_seq before decryption (and
                               tests the received number, not the stored one, against SEQ_MAX) *)
+  rp_v_abort_rb : bool     (* the window is rolled back at the common exit: whatever stops the
+                              processing between the replay check and a successful decryption *)
 }.
-Definition rp_orig : rp_variant := Build_rp_variant false false false false false false false.
-Definition rp_fixed : rp_variant := Build_rp_variant true true true true true true true.
+Definition rp_orig : rp_variant := Build_rp_variant false false false false false false false false.
+Definition rp_fixed : rp_variant := Build_rp_variant true true true true true true true true.
 
 (* oscore_recipient_ctx_t, the anti-replay part.  [rp_undef] is not a C field: it records
    that a shift by >= 64 bits (undefined behaviour in C) has been evaluated. *)
@@ -112,8 +114,11 @@ Definition rp_rollback (v : rp_variant) (s : rp_state) : rp_state :=
    recipient key, and (for a message that decrypts) what its inner Echo option looks like.
    [RpUnroutable]: the message never gets as far as RFC 8613 8.2 step 3 for this recipient
    context - the OSCORE option cannot be decoded or has no kid (4.02), or no security context
-   matches kid / kid context (4.01 "Security context not found"). *)
-Inductive rp_auth := RpGenuine | RpForged | RpUnroutable.
+   matches kid / kid context (4.01 "Security context not found").
+   [RpAbort]: the replay check is passed, but the processing stops before there is a decryption
+   verdict - every exit of coap_oscore_decrypt_pdu between 8.2 step 3 and step 6 (no memory for
+   the association or for the plaintext PDU; "no protected payload"). *)
+Inductive rp_auth := RpGenuine | RpForged | RpUnroutable | RpAbort.
 Inductive rp_echo := RpEchoNone | RpEchoOk | RpEchoBad.
 (* a request, or a response that carries a Partial IV of its own (Observe notification, B.1.2
    challenge) for an outstanding request of this endpoint: it is checked against the same
@@ -128,6 +133,7 @@ Inductive rp_verdict :=
 | RpRejChallenge  (* B.1.2: 4.01 with a fresh Echo value *)
 | RpRejEchoBad    (* B.1.2: Echo present but wrong: dropped *)
 | RpRejUnroutable  (* 4.02 / 4.01 before any recipient context is touched *)
+| RpRejAbort       (* processing stopped between the replay check and decryption *)
 | RpAcceptUnchecked. (* a response delivered while the context is in its initial state: nothing
                         was checked and nothing is recorded (a client that never serves requests
                         of the peer stays in that state) *)
@@ -154,6 +160,8 @@ Definition rp_recv_req (v : rp_variant) (W : Z) (b12 : bool) (s : rp_state) (m :
                                   (rp_initial s1) (rp_undef s1) in
     match rp_m_auth m with
     | RpUnroutable => (RpRejUnroutable, s)
+    | RpAbort =>                                         (* goto error before step 6 *)
+      (RpRejAbort, if rp_v_abort_rb v && negb (rp_initial s) then rp_rollback v s2 else s2)
     | RpForged => (RpRejDecrypt, rp_rollback v s2)       (* 8.2 step 6 fails *)
     | RpGenuine =>
       if rp_initial s2 then
@@ -195,6 +203,8 @@ Definition rp_recv_resp (v : rp_variant) (W : Z) (s : rp_state) (m : rp_msg)
     else
       match rp_m_auth m with
       | RpUnroutable => (RpRejUnroutable, s)
+      | RpAbort =>
+        (RpRejAbort, if rp_v_abort_rb v && validated then rp_rollback v s2 else s2)
       | RpForged =>                               (* 8.4 step 5 fails *)
         (RpRejDecrypt, if rp_v_resp_rb v && validated then rp_rollback v s2 else s2)
       | RpGenuine => if rp_initial s2 then (RpAcceptUnchecked, s2) else (RpAccept, s2)
@@ -235,7 +245,7 @@ Definition rp_accepted (v : rp_variant) (W : Z) (b12 : bool) (s : rp_state) (h :
 Definition rp_obs (s : rp_state) : Z * Z * bool := (rp_last s, rp_win s, rp_initial s).
 
 Definition rp_is_genuine (m : rp_msg) : bool :=
-  match rp_m_auth m with RpGenuine => true | RpForged | RpUnroutable => false end.
+  match rp_m_auth m with RpGenuine => true | RpForged | RpUnroutable | RpAbort => false end.
 
 (* verdicts of the genuine messages only *)
 Fixpoint rp_genuine_verdicts (h : list rp_msg) (rs : list rp_verdict) : list rp_verdict :=
@@ -283,11 +293,13 @@ Definition rp_abs_recv_req (W : Z) (b12 : bool) (a : rp_abs) (m : rp_msg) : rp_v
     if negb (rp_abs_fresh W a seq) then (RpRejReplay, a)
     else match rp_m_auth m with
          | RpForged | RpUnroutable => (RpRejDecrypt, a)
+         | RpAbort => (RpRejAbort, a)
          | RpGenuine => (RpAccept, rp_abs_accept a seq)
          end
   else
     match rp_m_auth m with
     | RpForged | RpUnroutable => (RpRejDecrypt, a)
+    | RpAbort => (RpRejAbort, a)
     | RpGenuine =>
       let go := if rp_abs_fresh W a seq then (RpAccept, rp_abs_accept a seq) else (RpRejReplay, a) in
       if b12 then
@@ -305,6 +317,7 @@ Definition rp_abs_recv_resp (W : Z) (a : rp_abs) (m : rp_msg) : rp_verdict * rp_
   match rp_m_auth m with
   | RpUnroutable => (RpRejUnroutable, a)
   | RpForged => if negb (rp_abs_fresh W a seq) then (RpRejReplay, a) else (RpRejDecrypt, a)
+  | RpAbort => if negb (rp_abs_fresh W a seq) then (RpRejReplay, a) else (RpRejAbort, a)
   | RpGenuine =>
     if negb (rp_abs_fresh W a seq) then (RpRejReplay, a)
     else if rp_a_armed a then (RpAccept, rp_abs_accept a seq)
